@@ -130,6 +130,20 @@ def build(doc, how):
         cls = registry.class_for_type(doc["type"], "2.1", "observables")
         kw = {k: tup(v) for k, v in doc.items() if k != "type"}
         return core.guarded(cls, allow_custom=True, **kw)
+    if how == "constructor-bytes":
+        # base64 text (payload_bin) and the text values of free-form dictionaries handed over as bytes: the binary property takes and keeps
+        # bytes, and the encoder writes them as the same JSON string -- the same value, so the same id
+        def byt(v, free):
+            if isinstance(v, str) and free:
+                return v.encode("utf-8")
+            if isinstance(v, dict):
+                return {k: byt(x, free or k in ("exif_tags", "document_info_dict")) for k, x in v.items()}
+            if isinstance(v, list):
+                return [byt(x, free) for x in v]
+            return v
+        cls = registry.class_for_type(doc["type"], "2.1", "observables")
+        kw = {k: (v.encode("ascii") if k == "payload_bin" and isinstance(v, str) else byt(v, False)) for k, v in doc.items() if k != "type"}
+        return core.guarded(cls, allow_custom=True, **kw)
     if how == "parse-id-null":
         return core.guarded(stix2.parse, dict(doc, id=None), allow_custom=True, version="2.1")
     if how.startswith("constructor-stixdt:"):
@@ -245,7 +259,7 @@ def check_case(case):
 
 # ---- strategies --------------------------------------------------------------------------------------------------
 OPTS = {"ts_max_digits": 6, "selectors": "none", "max_optional": 7}
-ROUTES = ["parse-text", "parse_observable", "constructor", "observed-data-member", "constructor-id-none", "parse-id-null", "constructor-tuples"]
+ROUTES = ["parse-text", "parse_observable", "constructor", "observed-data-member", "constructor-id-none", "parse-id-null", "constructor-tuples", "constructor-bytes"]
 STIXDT_ROUTES = ["constructor-stixdt:millisecond/min", "constructor-stixdt:millisecond/exact", "constructor-stixdt:second/exact", "constructor-stixdt:second/min"]
 # member names on which UTF-16 code-unit order (RFC 8785) and code-point order disagree, plus escapes
 ORDER_KEYS = ["\ue000", "\U0001f600\ue000", "\ufb33", "\U0001f600", "\uffff", "\U00010000", "a", "\u00e9", "\"q", "\\", "\u0001", "\ud7ff", "Z"]
